@@ -1118,6 +1118,55 @@ class Inliner:
             R().visit(st)
         return changed
 
+    def partial_attrs(self, f: FunctionInfo) -> bool:
+        """`self.X(a, b)` where the constructor binds `self.X = functools.partial(G, k=v)` once (and nothing else stores X)
+        ->  `G(a, b, k=<v>)`: literals are passed as they are; any other value is the one the *constructor* saw, written as the
+        synthetic attribute `self.X__bound_k` - it is not the live attribute the constructor argument was also stored in."""
+        if f.cls is None or not f.params or any(isinstance(d, ast.Name) and d.id == "staticmethod" for d in f.node.decorator_list):
+            return False
+        selfn = f.params[0]
+        changed = False
+        for n in list(_own_nodes(f.node)):
+            if not (isinstance(n, ast.Call) and isinstance(n.func, ast.Attribute) and isinstance(n.func.value, ast.Name) and n.func.value.id == selfn):
+                continue
+            X = n.func.attr
+            if self.prog.find_method(f.cls, X) is not None:
+                continue
+            stores = []
+            for g in self.prog.all_functions(include_inlined=True):
+                for m in _own_nodes(g.node):
+                    if isinstance(m, ast.Attribute) and m.attr == X and isinstance(m.ctx, (ast.Store, ast.Del)):
+                        stores.append((g, m))
+            if len(stores) != 1 or stores[0][0].name != "__init__" or stores[0][0].cls is None or stores[0][0].cls not in self.prog.mro(f.cls):
+                continue
+            init = stores[0][0]
+            asg = next((m for m in _own_nodes(init.node) if isinstance(m, ast.Assign) and len(m.targets) == 1 and m.targets[0] is stores[0][1]), None)
+            v = asg.value if asg is not None else None
+            if not (isinstance(v, ast.Call) and ast.unparse(v.func) in ("functools.partial", "partial") and v.args and isinstance(v.args[0], ast.Name) and len(v.args) == 1
+                    and all(k.arg is not None for k in v.keywords)):
+                continue
+            target = self.prog.resolve_name(init.module, v.args[0].id)
+            if not isinstance(target, FunctionInfo) or target.cls is not None:
+                continue
+            if any(k.arg in {kk.arg for kk in v.keywords} for k in n.keywords if k.arg):
+                continue  # the call overrides a bound keyword: leave it alone
+            name = v.args[0].id
+            there = self.prog.resolve_name(f.module, name)
+            if there is not target:
+                if there is not None or name in f.module.assigns:
+                    continue
+                f.module.imports[name] = f"{target.module.name}.{target.name}"
+            extra = []
+            for k in v.keywords:
+                val = copy.deepcopy(k.value) if isinstance(k.value, ast.Constant) else ast.Attribute(value=ast.Name(id=selfn, ctx=ast.Load()), attr=f"{X}__bound_{k.arg}", ctx=ast.Load())
+                extra.append(ast.keyword(arg=k.arg, value=val))
+            n.func = ast.copy_location(ast.Name(id=name, ctx=ast.Load()), n.func)
+            n.keywords = list(n.keywords) + extra
+            ast.fix_missing_locations(n)
+            changed = True
+            self.log.append(f"{f.qualname}: `self.{X}(..)` read as `{name}(.., <keywords bound by functools.partial in {init.qualname}>)` at line {getattr(n, 'lineno', '?')}")
+        return changed
+
     def concat_to_append(self, f: FunctionInfo) -> bool:
         """final statement `return L + [e]` with L a fresh local list (bound once, never aliased)  ->  `L.append(e); return L`
         (the list object dies with the call either way; the returned value is the same list of elements)"""
@@ -1327,7 +1376,8 @@ class Inliner:
             if not (isinstance(n, ast.Call) and n.args and isinstance(n.args[-1], ast.Starred) and not any(isinstance(a, ast.Starred) for a in n.args[:-1]) and not n.keywords):
                 continue
             sv = n.args[-1].value
-            pure = isinstance(sv, ast.Name) or (isinstance(sv, ast.Subscript) and isinstance(sv.value, ast.Name) and isinstance(sv.slice, (ast.Name, ast.Constant)))
+            pure = isinstance(sv, ast.Name) or (isinstance(sv, ast.Subscript) and isinstance(sv.value, ast.Name) and isinstance(sv.slice, (ast.Name, ast.Constant))) \
+                or (isinstance(sv, ast.Attribute) and isinstance(sv.value, ast.Name))
             if not pure:
                 continue
             g = None
@@ -1654,6 +1704,7 @@ class Inliner:
             self.merge_conditional_comprehensions(f)
             self.numpy_idioms(f)
             self.concat_to_append(f)
+            self.partial_attrs(f)
         for _round in range(MAX_ROUNDS):
             changed = False
             for f in funcs:
